@@ -286,6 +286,15 @@ def ldmStep (d : DSt) (t : List String) : DSt × String :=
     | some q => (d, serReqOut (if4RequestTiny d.s.core.consumers (d.s.core.db.rows.map (·.2)) q))
     | none => (d, "bad-op")
   | ["gc"] => doOp d (.core .maintain)
+  -- C13 (round 5): `LDMMaintenance.del_provider_data(container)` - removal BY VALUE: the first stored container equal to
+  -- the argument goes (`removeEq`, the operation the maintenance passes are made of); no result
+  | ["delv", app, ts, lat, lon, majC, minC, majO, alt, altC, radius, relDist, relDir, validity, obj] =>
+    match nat? app, int? ts, loc? [lat, lon, majC, minC, majO, alt, altC, radius, relDist, relDir], int? validity, jval? obj with
+    | some app, some ts, some loc, some validity, some (.dict kvs) =>
+      let r : Record := { appId := app, timestamp := ts, loc := loc, obj := .dict kvs, validity := validity }
+      let core := d.s.core
+      ({ d with s := { d.s with core := { core with db := { core.db with rows := removeEq core.db.rows r } } } }, "-")
+    | _, _, _, _, _ => (d, "bad-op")
   -- C12: the state the clause theorems speak about (identifier counter, registries, row ids / rows), compared with
   -- the real DictionaryDataBase and LDMService after every operation
   | ["state"] => (d, serState d.s.core false)
